@@ -35,6 +35,11 @@ EmitIP6Prefix   == PrintT(ToJson([fn |-> "IP6Prefix", args |-> [s |-> txt, dst |
 EmitContainsIP6 == PrintT(ToJson([fn |-> "ContainsIP6", args |-> [s |-> txt, dst |-> Dst6Len],
                                   res |-> ContainsIP6_Res(txt)]))
 
+\* IPv6 soundness (beyond the listed properties; report-only configurations print the texts on which it is false)
+Prefix6SoundInv   == Prefix6Sound(txt, IP6_Prefix(txt))
+Contains6SoundInv == Contains6Sound(txt, IP6_Contains(txt))
+Rep6 == /\ (Prefix6SoundInv \/ PrintT(<<"VIOL6", "prefix", txt, IP6_Prefix(txt).n>>))
+        /\ (Contains6SoundInv \/ PrintT(<<"VIOL6", "contains", txt>>))
 ContainsDeclInv == ContainsDecl(txt, IP4_Contains(txt))
 PrefixDeclInv   == PrefixDecl(txt, IP4_Prefix(txt))
 \* beyond the statement (doc comment of IP4Prefix): more-bytes vs bad for rejected texts
